@@ -239,7 +239,10 @@ Step(e) ==
              wasDrawn == LET p == B!PopOp(bd) IN can /\ B!DrawSomewhere(p)
          IN [bs |-> bs, recs |-> e.recs, reset |-> FALSE,
              fails |-> (IF Want("C08") THEN Chk("c08.pop-ok", e.ok = can) \cup (IF can THEN Chk("c08.pop-move", ToMv(e.m) = B!LastMove(bd)) ELSE {}) ELSE {})
-                       \cup JudgeRecs(e.recs, bs, IF wasDrawn THEN -1 ELSE e.id)]
+                       \* after a take-back the board reports a not-drawn result - also when the position taken
+                       \* back to was itself declared drawn when it was reached (the statement says so, and so
+                       \* does the code: the result is sticky on the way down and reset on the way back)
+                       \cup JudgeRecs(e.recs, bs, IF can THEN e.id ELSE -1)]
     [] e.op = "fork" ->
          LET bs == boards @@ (e.new :> B!ForkOp(boards[e.id])) IN
          [bs |-> bs, recs |-> e.recs, reset |-> FALSE, fails |-> JudgeRecs(e.recs, bs, -1)]
